@@ -264,6 +264,23 @@ pub fn trace(max_len: usize) -> BoxedStrategy<Vec<(u64, bool)>> {
     prop_oneof![4 => mixed, 1 => paced].boxed()
 }
 
+/// traces whose timestamps are multiples of one millisecond (coincidences with grid machines)
+pub fn grid_trace(max_len: usize) -> BoxedStrategy<Vec<(u64, bool)>> {
+    proptest::collection::vec((select(vec![0u64, 0, 1, 1, 2, 3, 5, 10]), any::<bool>()), 1..=max_len)
+        .prop_map(|v| {
+            let mut t = 0u64;
+            let mut out = vec![];
+            for (i, (g, s)) in v.into_iter().enumerate() {
+                if i > 0 {
+                    t += g * 1_000_000;
+                }
+                out.push((t, s));
+            }
+            out
+        })
+        .boxed()
+}
+
 /// seeds, with the corners of the u64 range
 pub fn seed() -> BoxedStrategy<u64> {
     prop_oneof![
